@@ -70,7 +70,7 @@ impl Vars {
     }
 }
 
-pub const N_TY_SKEL: usize = 7;
+pub const N_TY_SKEL: usize = 8;
 pub const TY_SKELS: [&str; N_TY_SKEL] = [
     "&m 'L [V]",
     "Adt<V, 'L, C>",
@@ -79,6 +79,7 @@ pub const TY_SKELS: [&str; N_TY_SKEL] = [
     "dyn Tr<V> + 'L",
     "<V as Tr>::A<'L>",
     "[V; C]",
+    "for<'a> fn() -> [&'a u8; C]",
 ];
 
 /// (uses ty var, uses lifetime var, uses const var)
@@ -90,7 +91,8 @@ pub fn ty_skel_uses(s: usize) -> (bool, bool, bool) {
         3 => (true, true, false),
         4 => (true, true, false),
         5 => (true, true, false),
-        _ => (true, false, true),
+        6 => (true, false, true),
+        _ => (false, false, true),
     }
 }
 
@@ -137,7 +139,18 @@ pub fn mk_ty(s: usize, v: &Vars) -> Ty<VI> {
             associated_ty_id: AssocTypeId(did(id)),
             substitution: subst(&[ga_ty(v.ty(0)), ga_lt(v.lt(0))]),
         }))),
-        _ => ty(TyKind::Array(v.ty(0), v.ct(0))),
+        6 => ty(TyKind::Array(v.ty(0), v.ct(0))),
+        _ => {
+            // a const variable of an outer binder underneath a function-pointer binder
+            let a = lt(LifetimeData::BoundVar(BoundVar::new(DebruijnIndex::INNERMOST, 0)));
+            let elem = ty(TyKind::Ref(Mutability::Not, a, ty(TyKind::Scalar(Scalar::Uint(UintTy::U8)))));
+            let ret = ty(TyKind::Array(elem, v.ct(1)));
+            ty(TyKind::Function(FnPointer {
+                num_binders: 1,
+                sig: FnSig { abi: VAbi::RUST, safety: Safety::Safe, variadic: false },
+                substitution: FnSubst(subst(&[ga_ty(ret)])),
+            }))
+        }
     }
 }
 
